@@ -11,7 +11,8 @@
                                        ConfigurationDict.__setitem__-> setitem
                                        ConfigurationDict.update     -> update
                                        Configuration.update/__init__-> cfg_update
-                                       load_from_file (one entry)   -> load_value
+                                       load_from_file (one line)    -> line_route
+                                       keyval_typ2str / tostring    -> typ2str
                                        keyval_str2typ               -> str2typ
      writer.py:store_metadata + h5py attribute + parse_config       -> h5 / h5_route
 
@@ -767,9 +768,9 @@ Section Tables.
 
   (* load_from_file, for the text right of "=": the value that is later
      handed to Configuration.update; None = the entry is skipped *)
-  Definition load_value (sec var : str) (text : str) : res (option value) :=
-    (* the line is "key = text": line.strip(), then split at "=" *)
-    let val := strip (strip_dq (strip_sq (32 :: rstrip_by is_ws text))) in
+  Definition load_value (sec var : str) (rawval : str) : res (option value) :=
+    (* rawval: the part of the (stripped) line right of the first "=" *)
+    let val := strip (strip_dq (strip_sq rawval)) in
     match val with
     | [] => Ok None
     | _ =>
@@ -782,15 +783,116 @@ Section Tables.
       else bind (str2typ val) (fun w => Ok (Some w))
     end.
 
-  (* Configuration(files=[f]) for a file with the single entry
-     "[sec]\nkey = text" *)
-  Definition file_route (sec key text : str) (d : dict) : outcome :=
-    let var := lower (strip key) in
-    match load_value sec var text with
+  (* one entry (rawvar "=" rawval) of section sec, then Configuration.update *)
+  Definition file_entry (sec rawvar rawval : str) (d : dict) : outcome :=
+    let var := lower (strip rawvar) in
+    match load_value sec var rawval with
     | Unmod => OUnmod
     | Raise e => Exc e
     | Ok None => Done d []
-    | Ok (Some v) => setitem sec var v d
+    | Ok (Some v) =>
+        match var with
+        | [] => Done d []                     (* len(var) == 0 *)
+        | _ => setitem sec var v d
+        end
+    end.
+
+  (* line.split("#")[0] *)
+  Fixpoint before_hash (s : str) : str :=
+    match s with
+    | [] => []
+    | c :: t => if c =? 35 then [] else c :: before_hash t
+    end.
+
+  (* line.split("=", 1): at the FIRST "=" *)
+  Fixpoint split_first (sep : Z) (s : str) : option (str * str) :=
+    match s with
+    | [] => None
+    | c :: t =>
+        if c =? sep then Some ([], t)
+        else match split_first sep t with
+             | Some (a, b) => Some (c :: a, b)
+             | None => None
+             end
+    end.
+
+  (* load_from_file for one line below the header "[sec]", followed by
+     Configuration.update: comments, blank lines, further headers and lines
+     without "=" are ignored *)
+  Definition line_route (sec line : str) (d : dict) : outcome :=
+    let l := strip (before_hash line) in
+    match l with
+    | [] => Done d []
+    | _ =>
+      if starts_with [91] l && ends_with [93] l then Done d []
+      else match split_first 61 l with
+           | None => Done d []
+           | Some (rawvar, rawval) => file_entry sec rawvar rawval d
+           end
+    end.
+
+  (* the line "key = text", as written by hand or by Configuration.tostring *)
+  Definition entry_line (key text : str) : str := key ++ [32; 61; 32] ++ text.
+
+  Definition file_route (sec key text : str) (d : dict) : outcome :=
+    line_route sec (entry_line key text) d.
+
+  (* config.keyval_typ2str: the text Configuration.tostring writes *)
+  Definition fmt12 (m : Z) : str :=
+    let a := Z.abs m in
+    let fr := (a mod 8) * 125 in
+    (if m <? 0 then [45] else []) ++ digits_of (a / 8) ++ [46] ++
+    [48 + fr / 100; 48 + (fr / 10) mod 10; 48 + fr mod 10] ++
+    [48; 48; 48; 48; 48; 48; 48; 48; 48].
+
+  Definition typ2str_scalar (x : scalar) : res str :=
+    match x with
+    | SStr s => Ok s
+    | SBool b | SNpBool b => Ok (if b then s_True else s_False)
+    | SInt n | SNpInt n => Ok (repr_int n)
+    | SFloat f | SNpF64 f =>
+        match f with
+        | FFin m => Ok (fmt12 m)
+        | FNaN => Ok s_nan
+        | FPInf => Ok s_inf
+        | FNInf => Ok (45 :: s_inf)
+        end
+    | _ => Unmod
+    end.
+
+  Fixpoint join_comma (l : list str) : str :=
+    match l with
+    | [] => []
+    | [a] => a
+    | a :: t => a ++ [44; 32] ++ join_comma t
+    end.
+
+  Definition typ2str (v : value) : res str :=
+    match v with
+    | VS x => typ2str_scalar x
+    | VSeq false l =>
+        bind (mapM typ2str_scalar l) (fun ts =>
+          Ok ([91] ++ join_comma ts ++ [93]))
+    | _ => Unmod
+    end.
+
+  (* assignment, Configuration.save, Configuration(files=[...]): what the
+     re-loaded configuration holds under the key; [97] when the assignment
+     stored nothing *)
+  Definition save_load_route (sec key : str) (v : value) : outcome + unit :=
+    match setitem sec key v [] with
+    | Done d [] =>
+        match dget d (lower key) with
+        | Some w =>
+            match typ2str w with
+            | Ok t => inl (line_route sec (entry_line (strip (lower key)) t) [])
+            | Raise e => inl (Exc e)
+            | Unmod => inl OUnmod
+            end
+        | None => inr tt
+        end
+    | Done _ _ => inr tt
+    | o => inl o
     end.
 
   (* ---------------------------------------------------------------- *)
@@ -1001,6 +1103,11 @@ Section Tables.
       | VS (SStr text) =>
           enc_outcome (strip key) (file_route sec key text [])
       | _ => [98]
+      end
+    else if route =? 4 then
+      match save_load_route sec key v with
+      | inl o => enc_outcome (strip key) o
+      | inr _ => [97]
       end
     else if route =? 2 then enc_outcome key (h5_route sec key v [])
     else
